@@ -1319,6 +1319,25 @@ class Interp:
                 r = mk(t)
             else:
                 raise EngineError(f'power `{txt}`')
+        elif isinstance(op, ast.BitAnd) and both_int:
+            ys = z3.simplify(y)
+            if z3.is_int_value(ys) and ys.as_long() >= 0 and (ys.as_long() + 1) & ys.as_long() == 0:
+                self.oblige(st, f'bitand.nonneg[{txt}]', x >= 0, text=txt)
+                r = VInt(self.pymod(x, z3.IntVal(ys.as_long() + 1)))     # x & (2^k - 1) == x mod 2^k for x >= 0
+            else:
+                raise EngineError(f'bitwise and with a non-mask `{txt}`')
+        elif isinstance(op, ast.RShift) and both_int:
+            ys = z3.simplify(y)
+            if z3.is_int_value(ys) and 0 <= ys.as_long() < 64:
+                r = VInt(self.floordiv(x, z3.IntVal(2 ** ys.as_long())))
+            else:
+                raise EngineError(f'shift by a symbolic amount `{txt}`')
+        elif isinstance(op, ast.LShift) and both_int:
+            ys = z3.simplify(y)
+            if z3.is_int_value(ys) and 0 <= ys.as_long() < 64:
+                r = VInt(x * (2 ** ys.as_long()))
+            else:
+                raise EngineError(f'shift by a symbolic amount `{txt}`')
         else:
             raise EngineError(f'operator {type(op).__name__}')
         if both_int and (a.dtype or b.dtype) and self.cur.get('numpy_scalars') and not isinstance(op, ast.Div):
@@ -1451,6 +1470,9 @@ class Interp:
         r = VSeq('bool', n, z3.Lambda([i], c.t), flavor='array', dtype='bool')
         if isinstance(op, ast.Eq) and isinstance(a, VSeq) and a.ek == 'int' and isinstance(b, VInt):
             r.eqsrc = (a.arr, b.t) + ((a.gathersrc,) if hasattr(a, 'gathersrc') else ())
+        if isinstance(op, ast.Eq) and isinstance(a, VSeq) and a.ek == 'real' and isinstance(b, VInt) \
+                and z3.is_int_value(z3.simplify(b.t)) and z3.simplify(b.t).as_long() == 0:
+            r.zerosrc = a.arr
         return r
 
     def is_none(self, v):
@@ -1503,6 +1525,8 @@ class Interp:
         if isinstance(cont, VSet):
             return cont.mem[to_term(x, cont.ek)]
         if isinstance(cont, VDict):
+            if cont.kk == 'unknown':
+                return z3.BoolVal(False)
             return cont.dom[to_term(x, cont.kk)]
         if isinstance(cont, VSeq):
             if cont.arr is None:
@@ -1673,8 +1697,10 @@ class Interp:
                 # field-granular frame: only obj.field may change
                 pname, fld = m[6:].split('.', 1)
                 obj = sub.env.get(pname)
-                if not isinstance(obj, VObj) or fld not in obj.fields:
+                if not isinstance(obj, VObj):
                     raise EngineError(f"modifies `{m}` of {c['qualname']} not bound")
+                if fld not in obj.fields:
+                    continue      # attribute created by the callee; not tracked by the caller
                 obj.fields[fld] = self.fresh_like(obj.fields[fld], f'{label}.{fld}', st)
                 continue
             tgt = sub.env.get(m[6:]) if m.startswith('param:') else st.glob.get(m)
